@@ -462,7 +462,8 @@ func checkUnionEnumValidators(w *World, r *Result) {
 	ast.Inspect(et.Decl.Body, func(x ast.Node) bool {
 		if rs, ok := x.(*ast.RangeStmt); ok && strings.HasSuffix(es(rs.X), ".Members") {
 			v := etinfo.Defs[identOf(rs.Value)]
-			all = len(leadingGuards(etinfo, rs.Body, map[types.Object]string{v: "$m"})) == 0
+			conds, uniform, nacc := loopFilter(etinfo, et.Decl, rs, map[types.Object]string{v: "$m"})
+			all = nacc > 0 && uniform && len(conds) == 0
 		}
 		return true
 	})
